@@ -259,6 +259,9 @@ func (e *Enc) applyContract(fr *Frame, st *State, fc *FuncContract, sig *types.S
 	if fc.Assumed || fc.Trusted {
 		e.assumedUsed[fc.Key] = true
 	}
+	if fc.TrustedPost {
+		e.assumedUsed[fc.Key+" (ensures clauses trusted; body checked for safety only)"] = true
+	}
 	e.contractsUsed[fc.Key] = true
 	bind, _ := e.contractBindings(fc, sig, args, hasSelf, selfType)
 	pre := st.clone()
@@ -327,7 +330,48 @@ func (e *Enc) applyContract(fr *Frame, st *State, fc *FuncContract, sig *types.S
 	return results
 }
 
+// havocAll havocs every heap; what the enclosing function's `preserves` clause names
+// (state unreachable from callees with an unbounded frame) keeps its contents.
 func (e *Enc) havocAll(st *State) {
+	pre := st.clone()
+	e.havocAllRaw(st)
+	heapBefore := func(n string) (Val, bool) {
+		if h, ok := pre.heaps[n]; ok {
+			return h, true
+		}
+		h, ok := e.base[n]
+		return h, ok
+	}
+	for _, pt := range e.preserved {
+		for _, lf := range e.P.W.Leaves(pt.typ) {
+			if _, isArr := lf.Type.Underlying().(*types.Array); isArr {
+				continue
+			}
+			n := heapName(lf.Sort)
+			nh, ok := st.heaps[n]
+			if !ok {
+				continue
+			}
+			oh, ok := heapBefore(n)
+			if !ok || oh.T == nh.T {
+				continue
+			}
+			if pt.kind == "loc" {
+				l := pt.loc
+				if len(lf.Path) > 0 {
+					l = MkLoc(LRef(pt.loc), LIdx(pt.loc), pathWith(pt.loc, lf.Path))
+				}
+				e.fact(Eq(Select(nh, l), Select(oh, l)))
+			} else { // elems
+				l := Val{"l!", SLoc}
+				in := e.inRange(l, SBase(pt.slice), SLen(pt.slice), lf.Path)
+				e.fact(quant("forall", []Val{l}, Implies(in, Eq(Select(nh, l), Select(oh, l))), []string{Select(nh, l).T}))
+			}
+		}
+	}
+}
+
+func (e *Enc) havocAllRaw(st *State) {
 	names := map[string]Val{}
 	for n, h := range e.base {
 		names[n] = h
@@ -405,6 +449,26 @@ func (e *Enc) havocTarget(st *State, t modTarget) {
 			e.fact(quant("forall", []Val{l}, body, []string{Select(nh, l).T}))
 			st.heaps[hn] = nh
 		}
+	case "map":
+		mt := t.typ.Underlying().(*types.Map)
+		dn, d, vn, vh, err := e.mapHeaps(st, mt)
+		if err != nil {
+			e.failed = err
+			return
+		}
+		ks, _ := Select(d, t.loc).S.ArrayParts()
+		_ = ks
+		nd := e.fresh(dn, d.S)
+		e.fact(Eq(nd, Store(d, t.loc, e.fresh("hvdom", Select(d, t.loc).S))))
+		nv := e.fresh(vn, vh.S)
+		e.fact(Eq(nv, Store(vh, t.loc, e.fresh("hvval", Select(vh, t.loc).S))))
+		l := e.heap(st, "ML", ArraySort(SInt, BVSort(64)))
+		nl := e.fresh("ML", l.S)
+		ln := e.fresh("hvlen", BVSort(64))
+		e.fact(And(Eq(nl, Store(l, t.loc, ln)), BVCmp("bvsge", ln, BV(64, 0))))
+		st.heaps[dn] = nd
+		st.heaps[vn] = nv
+		st.heaps["ML"] = nl
 	case "object":
 		// every location of the object (all scalar heaps)
 		names := map[string]Val{}
